@@ -178,7 +178,7 @@ _add("vnaproperty-io", "vnaproperty_export_yaml_to_file", INT, EITHER, None,
 _add("void", "vnacal_free vnacal_new_free vnadata_free", NONE, NEVER, [])
 
 # driver-only ops: not API calls
-DRIVER_OPS = frozenset("""buf set echo fault iofault hash_file write_file read_file unlink proot
+DRIVER_OPS = frozenset("""buf set echo fault iofault errno_preset hash_file write_file read_file unlink proot
  prop_autohash dump_vnadata hash_vnadata dump_property hash_property
  dump_vnacal dump_vnacal_property vnacal_get_parameter_values conv""".split())
 # observers built from public calls with *valid* arguments only (plus silent
